@@ -12,7 +12,7 @@ pub static C12: P = P;
 
 pub const ATOMS: [&str; 13] = ["", "ab", "ab cd", "  ab", "ab  ", "a\tb", "\tab", "ab\t", "中a 中", "abcdefgh", "a   b", " ", "abcdefg\tx"];
 const CTXS: [(&str, &str, &str, usize); 3] = [("top", "<pre>", "</pre>", 0), ("li", "<ul><li><pre>", "</pre></li></ul>", 2), ("quote", "<blockquote><pre>", "</pre></blockquote>", 2)];
-const VARIANTS: [&str; 3] = ["text", "first word of each line in <b>", "lines separated by <br>"];
+const VARIANTS: [&str; 5] = ["text", "first word of each line in <b>", "lines separated by <br>", "lines separated by newline + <br> (a blank line between)", "lines separated by <br> + newline"];
 
 pub fn expand(l: &str) -> String {
     let mut out = String::new();
@@ -61,7 +61,12 @@ fn build_html(c: &Case) -> String {
             }
         })
         .collect();
-    let body = if c.variant == 2 { lines.join("<br>") } else { lines.join("\n") };
+    let body = match c.variant {
+        2 => lines.join("<br>"),
+        3 => lines.join("\n<br>"),
+        4 => lines.join("<br>\n"),
+        _ => lines.join("\n"),
+    };
     format!("{open}{body}{close}")
 }
 
@@ -90,8 +95,15 @@ fn check(c: &Case, cx: &mut Cx) {
     };
     let out: Vec<String> = lines.iter().map(|l| line_text(l).chars().skip(pfx).collect()).collect();
     // the HTML parser drops a newline that directly follows <pre>
-    let mut src: Vec<String> = c.lines.clone();
-    if c.variant != 2 && src.len() > 1 && src[0].is_empty() {
+    // source lines as the browser sees them: <br> is a line break like a newline
+    let mut src: Vec<String> = vec![];
+    for (i, l) in c.lines.iter().enumerate() {
+        if i > 0 && c.variant >= 3 {
+            src.push(String::new());
+        }
+        src.push(l.clone());
+    }
+    if !matches!(c.variant, 2 | 4) && src.len() > 1 && src[0].is_empty() {
         src.remove(0);
     }
     let exp: Vec<String> = src.iter().map(|l| expand(l)).collect();
@@ -225,7 +237,7 @@ impl Scope for S {
         let idx = decode(code, &vec![ATOMS.len(); k]);
         let lines: Vec<String> = idx.iter().map(|&i| ATOMS[i].to_string()).collect();
         let maxw = self.tier.pick(18, if k <= 2 { 60 } else if k == 3 { 30 } else { 18 });
-        let nvar = self.tier.pick(if k <= 1 { 3 } else { 2 }, 3);
+        let nvar = self.tier.pick(if k <= 2 { 5 } else { 2 }, 5);
         for ctx in 0..CTXS.len() {
             for variant in 0..nvar {
                 for width in 1..=maxw {
@@ -236,7 +248,7 @@ impl Scope for S {
     }
     fn info(&self) -> Info {
         Info {
-            rule: "every pre block of up to maxk lines over 13 line shapes (empty, words, leading/trailing/interior spaces, tabs at start/middle/end and across column 8, wide characters, a full-width word, spaces only) x {top level, list item, quote} x {plain text, first word in <b>, <br> as separator} x every width; non-trivial = some source line does not fit".into(),
+            rule: "every pre block of up to maxk lines over 13 line shapes (empty, words, leading/trailing/interior spaces, tabs at start/middle/end and across column 8, wide characters, a full-width word, spaces only) x {top level, list item, quote} x {plain text, first word in <b>, <br> / newline+<br> / <br>+newline as separators} x every width; non-trivial = some source line does not fit".into(),
             bounds: json!({"line_shapes": ATOMS, "max_lines": self.maxk, "contexts": ["top", "li", "quote"], "variants": VARIANTS, "widths": self.tier.pick("1..=18", "1..=60 (<=2 lines), 1..=30 (3 lines), 1..=18 (4 lines)")}),
             assumptions: vec!["rich decorator; tab stops every 8 columns counted from the start of the block's own width".into()],
         }
